@@ -68,8 +68,9 @@ UNMOD_SPEC = ["type", "id", "created", "created_by_ref"]
 OFFSETS = [-1000000, -1, 0, 1, 999, 1000, 1001, 1000000]
 MARKS = ["marking-definition--613f2e26-407d-48c7-9eca-b8e91df99dc9", "marking-definition--34098fce-860f-48ae-8e50-ebd3cc5e41da",
          "marking-definition--f88d31f6-486f-44da-b317-01333bde0b82", "marking-definition--5e57c739-391a-4eb3-b6be-7d15ca92d5ed"]
-import uuid as _uuid
-MARKS = MARKS + ["marking-definition--%s" % _uuid.uuid5(_uuid.NAMESPACE_URL, "verif-marking-%d" % i) for i in range(70)]
+import random as _random
+_g = stixgen.Gen(_random.Random(20260929), spec={"classes": {}, "registries": {}})
+MARKS = MARKS + ["marking-definition--%s" % _g.uuid(4) for i in range(70)]        # version-4 UUIDs (2.0 requires them)
 MARK_SIZES = [1, 1, 1, 2, 2, 2, 3, 9, 10, 11, 64, 65]        # both sides of plausible bounds
 FINDING_NAIVE = "C05-naive-datetime-cannot-be-versioned"
 FINDING_MAPPING = "C05-non-dict-mapping-mixed-precision-rules"
@@ -963,6 +964,7 @@ def check(run):
             v.origin = (cases, c)
             run.violations.append(v)
     run.violations += local_zone_runs(run, cases, impl)
+    run.violations += repeat_runs(run, cases, impl)
     run.coverage["distribution"] = hist
     run.coverage["operations"] = nops
     run.coverage["types_covered"] = sorted({"%s/%s" % (c["ver"], c["ty"]) for c in cases if c["kind"] == "versionable"})
@@ -1090,6 +1092,34 @@ def local_zone_runs(run, cases, impl):
     return out
 
 
+def repeat_runs(run, cases, impl):
+    """History / order: a sample of the chains run again, twice in one interpreter -- in the original order and then
+    reversed, so that every chain comes after other types, other spec versions, failed operations: same outcomes."""
+    idx = list(range(0, len(cases), max(1, len(cases) // 160)))
+    out, nd, unstable = [], 0, 0
+    for b in range(0, len(idx), 80):
+        part = idx[b:b + 80]
+        seq = part + part[::-1]
+        batch = [cases[i] for i in seq]
+        res = impl_run(batch, procs=1)
+        for pos, (i, c, r) in enumerate(zip(seq, batch, res)):
+            if comparable(c, r) != comparable(c, impl[i]):
+                alone = impl_run([c], procs=1)[0]
+                if comparable(c, alone) != comparable(c, impl[i]):
+                    unstable += 1             # differs between two fresh interpreters too: random ids, wall clock
+                    continue
+                nd += 1
+                if nd <= 3:
+                    out.append(Violation("the outcome of the chain depends on what the interpreter handled before [%s %s %s]: %s"
+                                         % (c["ver"], c["carrier"], c.get("ty"), str(r.get("line", r))[:300]),
+                                         {"case": c, "before": batch[:pos], "check": "history"}, None))
+            for v in oracle_case(c, r):
+                v.replay["before"] = batch[:pos]
+                out.append(v)
+    run.coverage["asked_again"] = {"chains": 2 * len(idx), "differences": nd, "not_deterministic": unstable}
+    return out
+
+
 def kind_of(v):
     return str(v.replay.get("check")).split(" (")[0].split(": ")[0].split(" '")[0]
 
@@ -1114,9 +1144,15 @@ def reproducible(v, original):
     if tz:
         v.replay["tz"] = tz
     clean = lambda c: {k: x for k, x in c.items() if k != "_state_before"}
-    if kind == "process time zone":
+    if kind in ("process time zone", "history"):
         v = original
         v.replay["case"] = clean(v.replay["case"])
+        return v
+    if original.replay.get("before"):        # found after other chains in one interpreter: keep them in the replay
+        v = original
+        v.replay["case"] = clean(v.replay["case"])
+        if shows(v.replay["case"], [], kind, tz):
+            v.replay.pop("before", None)
         return v
     if shows(clean(v.replay["case"]), [], kind, tz):
         return v
@@ -1158,6 +1194,13 @@ def replay(payload):
     print("replay%s %s %s %s: %s" % (" TZ=" + r["tz"] if r.get("tz") else "", case["ver"], case["carrier"], case.get("ty"),
                                      str(res.get("line", res))[:2000]))
     v = oracle_case(case, res)
+    if r.get("check") == "history":
+        alone = impl_run([case], procs=1)[0]
+        alone2 = impl_run([case], procs=1)[0]
+        if comparable(case, alone) == comparable(case, alone2) and comparable(case, alone) != comparable(case, res):
+            print("  the outcome differs from that in a fresh interpreter: %s" % str(alone.get("line", alone))[:1500])
+            print("VIOLATION property=C05 replay=(given)")
+            return 1
     if r.get("tz") and r.get("check") == "process time zone":
         utc = impl_run(list(r.get("before", [])) + [case], procs=1, tz="UTC")[-1]
         utc2 = impl_run(list(r.get("before", [])) + [case], procs=1, tz="UTC")[-1]
